@@ -312,6 +312,7 @@ func c16History(r *kit.Result, rng *kit.Rand, id string, nsteps int, prologue in
 }
 
 func TestVerif_C16_Histories(t *testing.T) {
+	t.Parallel() // the three monitors share nothing but the read-only scenario definitions
 	seed := kit.Seed(16)
 	r := kit.NewResult(t, "c16-histories", seed, "generated histories of issue / forge (bring-your-own, also long expired) / revoke through every route (serial in three spellings, certificate, with-key, lease, issuer) / re-revoke / rotate / rotate-delta / tidy / config flips (auto-rebuild+delta, disable, ocsp_disable, allow-expired) / issuer remove, re-import, add, set-default / restart / periodic tick over 2-5 issuers (distinct roots, optionally a re-issued root sharing subject and key, optionally an intermediate whose own CA certificate is revocable); after every step the oracle reads cert/<serial>, OCSP, certs/revoked, every issuer's complete CRL (parsed and verified with crypto/x509) and the legacy CRL endpoints and compares them with the ledger of revocations the API reported successful; an evaluation is one step+oracle pass; a history is non-trivial when it ends with >= 3 ledger entries and ran >= 3 different kinds of non-revocation operations while the ledger was non-empty")
 	defer r.Write(t)
